@@ -48,7 +48,11 @@ def exc_signature(e: BaseException) -> dict:
     last = tb[-1] if tb else None
     return {
         # the exception was raised while a docutils/Sphinx *writer* translated a finished doctree
-        "in_writer": any("/writers/" in fr.filename.replace(os.sep, "/") for fr in tb),
+        # ... or in the builder's per-document write step / finishing step (``write_doc``, page contexts, indices):
+        # everything after the document has been read and its references resolved
+        "in_writer": any("/writers/" in fr.filename.replace(os.sep, "/")
+                         or (fr.name in ("write_doc", "write_doc_serialized", "handle_page", "finish", "get_doc_context")
+                             and "/sphinx/builders/" in fr.filename.replace(os.sep, "/")) for fr in tb),
         "type": type(e).__name__,
         "message": str(e)[:300],
         "myst_frame": f"{os.path.basename(inner.filename)}:{inner.name}" if inner else None,
